@@ -279,6 +279,9 @@ type histRun struct {
 
 func runHist(sc *histScript, unpriv bool, wrapper ...string) *histRun {
 	self, _ := os.Executable()
+	if unpriv {
+		self = publicSelf()
+	}
 	in, _ := json.Marshal(sc)
 	cctx, cancel := context.WithTimeout(context.Background(), 60*time.Second)
 	defer cancel()
@@ -287,8 +290,9 @@ func runHist(sc *histScript, unpriv bool, wrapper ...string) *histRun {
 	cmd.Stdin = bytes.NewReader(in)
 	var stdout, stderr bytes.Buffer
 	cmd.Stdout, cmd.Stderr = &stdout, &stderr
+	cmd.SysProcAttr = &syscall.SysProcAttr{Pdeathsig: syscall.SIGKILL}
 	if unpriv {
-		cmd.SysProcAttr = &syscall.SysProcAttr{Credential: &syscall.Credential{Uid: 65534, Gid: 65534}}
+		cmd.SysProcAttr.Credential = &syscall.Credential{Uid: 65534, Gid: 65534}
 	}
 	err := cmd.Run()
 	hr := &histRun{Stderr: stderr.String()}
